@@ -6,7 +6,7 @@ LEVEL = 'model_checking'
 PID = 'C08'
 FAMILY = 'life'
 PROPS = ['P_C08']
-BASE = [{'role': 'acc', 'bs': 42}, {'role': 'init', 'bs': 42}, {'role': 'acc', 'bs': 44, 'schedule': True}]
+BASE = [{'role': 'acc', 'bs': 42}, {'role': 'init', 'bs': 42}, {'role': 'acc', 'bs': 44, 'schedule': True}, {'role': 'acc', 'bs': 42, 'resetSeqTime': True}]
 ALT = [{'role': 'acc', 'bs': 44, 'resetOnDisconnect': True}, {'role': 'init', 'bs': 40}, {'role': 'acc', 'bs': 50}, {'role': 'init', 'bs': 44, 'resetOnLogout': True}]
 
 
